@@ -153,6 +153,7 @@ type Obligation struct {
 	Hints   []*Term
 	Axioms  []*Term
 	BytesAxioms bool
+	RowFrames   []rowFrame
 	shaped  bool
 	lifted  bool
 	// results
@@ -200,6 +201,9 @@ type FCtx struct {
 	LockSweep     bool
 	AutoLocks     bool
 	Globals       []*Term // definitional facts about fresh symbols
+	RowFrames     []rowFrame
+	renamed       map[string]types.Object // baseline name -> current variable (harmless renames)
+	renamedCur    map[string]string       // current name -> baseline name
 	embTarget     map[string]string
 	embSeen       map[string]bool
 	embTerms      []*Term
